@@ -568,7 +568,7 @@ func C18(rep *ev.Reporter, tier string) {
 		rep.Exhaustive = false
 		rep.Coverage["caps_hit"] = "time budget"
 	}
-	rep.Coverage["rule"] = "every JSON operator tree of depth 1 over all 15 operators and operand forms {plain string, number, bool, obj, const of each kind}; depth 2 with a nested operand on either side (quick: every 3rd depth-1 node as nested operand; thorough: all, both sides nested, depth-3 logic trees); 3-operand forms; nesting of the same operator on either side where it is not associative (mixed int/string concatenation, float rounding); unary not stacked 1..4 deep, as operand, over 3-operand chains and over comparisons with a float fact; every case on two worlds (in the second every leaf comparison comes out the other way and the float fact is not a number); set/call trees in `then`; calls with nested arguments; hostile string constants; boundary numeric constants; names/descriptions/saliences; malformed rules; one resource value loaded repeatedly while the document behind it changes (in place or replaced). Oracle: the JSON tree is read directly (operands grouped exactly as nested, n-ary left-associated) and evaluated by the reference evaluator; the translated text must be accepted by the real builder, keep name/description/salience, give the same candidate flag and the same facts after firing. Ill-typed trees (per the reference) are not judged. Non-trivial: a well-typed tree whose translated rule was built and compared."
+	rep.Coverage["rule"] = "every JSON operator tree of depth 1 over all 15 operators and operand forms {plain string, number, bool, obj, const of each kind}; depth 2 with a nested operand on either side (quick: every 3rd depth-1 node as nested operand; thorough: all, both sides nested, depth-3 logic trees); 3-operand forms; nesting of the same operator on either side where it is not associative (mixed int/string concatenation, float rounding); unary not stacked 1..4 deep, as operand, over 3-operand chains and over comparisons with a float fact; every case on two worlds (in the second every leaf comparison comes out the other way and the float fact is not a number); set/call trees in `then`; calls with nested arguments; hostile string constants; boundary numeric constants; names/descriptions/saliences; malformed rules; document framing (every single-token damage of a single-rule object and of a 3-rule array that encoding/json declares invalid - a token deleted, duplicated, 10 tokens inserted at every position incl. the end, a second document appended - must be rejected by the translator and the resource loader); one resource value loaded repeatedly while the document behind it changes (in place or replaced). Oracle: the JSON tree is read directly (operands grouped exactly as nested, n-ary left-associated) and evaluated by the reference evaluator; the translated text must be accepted by the real builder, keep name/description/salience, give the same candidate flag and the same facts after firing. Ill-typed trees (per the reference) are not judged. Non-trivial: a well-typed tree whose translated rule was built and compared."
 }
 
 func c18FloatSink(w *ref.World) (float64, bool) { return w.Objs["K"].F, true }
@@ -780,6 +780,7 @@ func c18Extras(rep *ev.Reporter, mu *sync.Mutex) int64 {
 		}
 	}
 	n += c18Rulesets(rep, report)
+	n += c18Framing(rep, report)
 	n += c18ResourceReuse(rep, report)
 	return n
 }
@@ -985,4 +986,115 @@ func firstErr(e error) string {
 		return "<nil>"
 	}
 	return firstLineOf(e.Error())
+}
+
+// c18Tokens splits a JSON text into its tokens (strings, numbers and literals, punctuation); white space is dropped.
+func c18Tokens(js string) []string {
+	var out []string
+	for i := 0; i < len(js); {
+		c := js[i]
+		switch {
+		case c == ' ' || c == '\n' || c == '\t' || c == '\r':
+			i++
+		case c == '"':
+			j := i + 1
+			for j < len(js) && js[j] != '"' {
+				if js[j] == '\\' {
+					j++
+				}
+				j++
+			}
+			out = append(out, js[i:j+1])
+			i = j + 1
+		case strings.ContainsRune("[]{},:", rune(c)):
+			out = append(out, string(c))
+			i++
+		default:
+			j := i
+			for j < len(js) && !strings.ContainsRune("[]{},: \n\t\r\"", rune(js[j])) {
+				j++
+			}
+			out = append(out, js[i:j])
+			i = j
+		}
+	}
+	return out
+}
+
+// c18Framing: a JSON rule document is accepted only if it is a JSON document. Every single-token damage of a valid
+// single-rule object and of a valid 3-rule array (a token deleted, duplicated, each of 10 tokens inserted at every
+// position incl. the very end, a second document appended) that encoding/json declares invalid must be rejected by
+// the translator entry point for that document kind and by the resource loader.
+func c18Framing(rep *ev.Reporter, report func(sig, what, id, js, text string)) int64 {
+	one := `{"name":"A","desc":"da","salience":1,"when":{"and":[{"obj":"F.B"},{"gt":["F.I",1]}]},"then":["K.I = 1",{"set":["K.F",{"plus":["F.I",2.5]}]}]}`
+	docs := []struct {
+		kind string
+		js   string
+	}{
+		{"rule", one},
+		{"ruleset", "[" + one + `,{"name":"B","when":"F.B","then":["K.I16 = 3"]},{"name":"C","salience":-7,"when":{"obj":"F.B"},"then":["K.K = 2;"]}]`},
+	}
+	var n int64
+	for _, d := range docs {
+		toks := c18Tokens(d.js)
+		seen := map[string]bool{}
+		try := func(how string, parts []string) {
+			m := strings.Join(parts, " ")
+			if seen[m] || json.Valid([]byte(m)) {
+				return
+			}
+			seen[m] = true
+			n++
+			id := fmt.Sprintf("c18/framing/%s/%d", d.kind, n)
+			if rep.ReplayFilter != "" && rep.ReplayFilter != id {
+				return
+			}
+			accepted := ""
+			func() {
+				defer func() { recover() }()
+				var err error
+				if d.kind == "ruleset" {
+					_, err = pkg.ParseJSONRuleset([]byte(m))
+				} else {
+					_, err = pkg.ParseJSONRule([]byte(m))
+				}
+				if err == nil {
+					accepted = "translator"
+				}
+			}()
+			func() {
+				defer func() { recover() }()
+				res, err := pkg.NewJSONResourceFromResource(pkg.NewBytesResource([]byte(m)))
+				if err != nil {
+					return
+				}
+				if _, err := res.Load(); err == nil {
+					accepted += "+resource"
+				}
+			}()
+			if accepted != "" {
+				report("C18:invalid-json-document-accepted:"+d.kind+":"+strings.SplitN(how, "@", 2)[0], fmt.Sprintf("the text is not a JSON document (encoding/json: invalid; damage: %s), yet it is accepted by the %s", how, accepted), id, m, "")
+			}
+		}
+		ins := []string{"[", "]", "{", "}", ",", ":", "x", `"s"`, "1", "null"}
+		for i := range toks {
+			del := append(append([]string{}, toks[:i]...), toks[i+1:]...)
+			try(fmt.Sprintf("token-deleted@%d", i), del)
+			dup := append(append(append([]string{}, toks[:i+1]...), toks[i]), toks[i+1:]...)
+			try(fmt.Sprintf("token-duplicated@%d", i), dup)
+		}
+		for i := 0; i <= len(toks); i++ {
+			for _, t := range ins {
+				how := "token-inserted"
+				if i == len(toks) {
+					how = "token-appended"
+				}
+				m := append(append(append([]string{}, toks[:i]...), t), toks[i:]...)
+				try(fmt.Sprintf("%s(%s)@%d", how, t, i), m)
+			}
+		}
+		try("document-appended", append(append([]string{}, toks...), toks...))
+		try("rule-appended", append(append([]string{}, toks...), c18Tokens(one)...))
+	}
+	return n
 }
